@@ -90,12 +90,12 @@ func (e *Exec) step(fr *frame, st *State, in ssa.Instruction, b *ssa.BasicBlock)
 					name, s = e.ti.elemComp(u.Elem(), l.path)
 					as := arraySort(SInt, s)
 					arr := e.heapComp(st, name, SInt, arraySort(SInt, as))
-					e.setHeap(st, name, tStore(arr, ref, Term{fmt.Sprintf("((as const %s) %s)", as, e.ti.zero(l.typ).S), as}))
+					e.setHeap(st, name, tStore(arr, ref, e.constArray(as, e.ti.zero(l.typ))))
 				}
 			} else {
 				as := arraySort(SInt, s)
 				arr := e.heapComp(st, name, SInt, arraySort(SInt, as))
-				e.setHeap(st, name, tStore(arr, ref, Term{fmt.Sprintf("((as const %s) %s)", as, e.ti.zero(u.Elem()).S), as}))
+				e.setHeap(st, name, tStore(arr, ref, e.constArray(as, e.ti.zero(u.Elem()))))
 			}
 		default:
 			e.store(st, p, e.ti.zero(et))
@@ -175,7 +175,7 @@ func (e *Exec) step(fr *frame, st *State, in ssa.Instruction, b *ssa.BasicBlock)
 			name, s := e.ti.elemComp(et, l.path)
 			as := arraySort(SInt, s)
 			arr := e.heapComp(st, name, SInt, arraySort(SInt, as))
-			e.setHeap(st, name, tStore(arr, ref, Term{fmt.Sprintf("((as const %s) %s)", as, e.ti.zero(l.typ).S), as}))
+			e.setHeap(st, name, tStore(arr, ref, e.constArray(as, e.ti.zero(l.typ))))
 		}
 		fr.vals[x] = mkSlice(ref, tInt(0), ln, cp)
 		return true
@@ -191,6 +191,9 @@ func (e *Exec) step(fr *frame, st *State, in ssa.Instruction, b *ssa.BasicBlock)
 		return true
 	case *ssa.MakeInterface:
 		fr.vals[x] = e.makeInterface(st, e.val(fr, st, x.X), x.X.Type())
+		if bt, ok := fr.vals[x].(Term); ok {
+			e.linkPure(st, x.Type(), x.X.Type(), bt, fr.vals[x], e.val(fr, st, x.X), e.pos(x.Pos()))
+		}
 		return true
 	case *ssa.ChangeInterface:
 		fr.vals[x] = e.val(fr, st, x.X)
@@ -940,4 +943,76 @@ func (e *Exec) initGhosts(st *State, ptrType types.Type, ref Term) {
 		arr := e.heapComp(st, name, SInt, arraySort(SInt, rs))
 		e.setHeap(st, name, tStore(arr, ref, e.ti.zero(rt)))
 	}
+}
+
+// linkPure: when a concrete value is converted to an interface whose getters have `pure` interface
+// contracts, the interface-level function of the boxed value is tied to the concrete method's
+// contract result at this moment (the pure declaration says it never changes afterwards).
+func (e *Exec) linkPure(st *State, ifaceT, concT types.Type, boxed Term, _ Value, conc Value, where string) {
+	if e.quant > 0 || e.spec > 0 {
+		return
+	}
+	n, ok := ifaceT.(*types.Named)
+	if !ok || n.Obj().Pkg() == nil {
+		return
+	}
+	it, ok := n.Underlying().(*types.Interface)
+	if !ok {
+		return
+	}
+	mset := types.NewMethodSet(concT)
+	for i := 0; i < it.NumMethods(); i++ {
+		m := it.Method(i)
+		ict := e.cs.ByKey["iface:"+n.Obj().Pkg().Path()+"."+n.Obj().Name()+"."+m.Name()]
+		if ict == nil || !ict.Pure {
+			continue
+		}
+		sel := mset.Lookup(m.Pkg(), m.Name())
+		if sel == nil {
+			continue
+		}
+		cf, ok := sel.Obj().(*types.Func)
+		if !ok {
+			continue
+		}
+		fn := e.w.Prog.FuncValue(cf)
+		if fn == nil {
+			continue
+		}
+		cct := e.cs.ByKey[fnKey(fn)]
+		if cct == nil || len(cct.Ensures) == 0 {
+			continue
+		}
+		r, ok2 := e.modularCall(st, cct, fn.Signature, []Value{conc}, where, shortKey(fnKey(fn)))
+		if !ok2 {
+			continue
+		}
+		rt, isT := r.(Term)
+		if !isT {
+			continue
+		}
+		msig := m.Type().(*types.Signature)
+		rsig := types.NewSignatureType(types.NewVar(0, nil, "self", ifaceT), nil, nil, msig.Params(), msig.Results(), false)
+		if !pureScalarK(rsig, true) {
+			continue
+		}
+		e.pureAxioms(ict, rsig)
+		pv := e.pureResult(st, ict, rsig, []Value{boxed})
+		if pt, ok := pv.(Term); ok {
+			e.assume(st, e.equal(msig.Results().At(0).Type(), pt, rt))
+		}
+	}
+}
+
+// constArray: the array with every element equal to v.  cvc5 accepts `as const` only with value
+// literals, so for other element terms (the empty string of the uninterpreted Str sort) a declared
+// array with a defining axiom is used.
+func (e *Exec) constArray(sort string, v Term) Term {
+	if v.Sort == SInt || v.Sort == SBool || strings.HasPrefix(v.S, "(mkslice") {
+		return Term{fmt.Sprintf("((as const %s) %s)", sort, v.S), sort}
+	}
+	name := "zarr." + smtIdent(sort)
+	e.smt.declare(name, sort)
+	e.smt.axiom("zarr:"+name, fmt.Sprintf("(assert (forall ((i Int)) (! (= (select %s i) %s) :pattern ((select %s i)))))", name, v.S, name))
+	return Term{name, sort}
 }
